@@ -416,3 +416,43 @@ func init() {
 	byProp["C05"] = append(byProp["C05"], "C03.commit-order", "C15.conn")
 	explain["C05"] += " Shared: commit-order (C03: a commit cannot report failure after its version PUT succeeded, so 'a failing commit leaves the bucket without a new version' and the local rollback agree with the bucket) and conn (C15: the transaction's fixed write time is really installed into the request context, whatever other attribute is set)."
 }
+
+// ---- C05.clone-deep: a snapshot never shares a mutable root with the tree it was taken from ----------
+
+func init() {
+	register(&Rule{Name: "C05.clone-deep", Min: 1, Run: c05CloneDeep,
+		Doc: "crdt.Tree.Clone returns a tree made by (*mast.Mast).Clone on every successful path: copying the handle shares the in-memory root node, which is written in place while it has never been stored"})
+	byProp["C05"] = append(byProp["C05"], "C05.clone-deep")
+	byProp["C06"] = append(byProp["C06"], "C16.fresh-bytes", "C08.tables")
+	explain["C05"] += " clone-deep: mast.Clone is what marks the nodes of a tree shared, so that the next write copies them; a clone that only copies the Mast struct is independent for stored trees but not for a table that has never held a version — its root is an in-memory node that Insert changes in place, and ROLLBACK then 'restores' a snapshot that contains the rolled-back rows. Every successful return of (crdt.Tree).Clone lies on a path that called (*mast.Mast).Clone and returns a tree holding its result."
+	explain["C06"] += " fresh-bytes (shared with C16) and tables (shared with C08): node encodings are not shared buffers; INTEGER goes out through the 64-bit result call."
+}
+
+func c05CloneDeep(c *Ctx) {
+	const rule = "C05.clone-deep"
+	fn := c.P.LookupFunc("kv/internal/crdt", "Tree", "Clone")
+	if fn == nil {
+		fn = mustFunc(c, "kv/internal/crdt", "*Tree", "Clone")
+	}
+	if fn == nil {
+		return
+	}
+	name := core.FuncName(fn)
+	c.R.SawFunc(name)
+	h := an.THooks{Instr: func(in ssa.Instruction, st an.TState) an.TState {
+		if cl, ok := in.(ssa.CallInstruction); ok && an.CalleeIs(cl, mastPkg, "Mast", "Clone") {
+			return ansState(true)
+		}
+		return st
+	}}
+	exits := an.WalkTypestate(fn, ansState(false), h, c.Scope(fn))
+	good := len(exits) > 0
+	why := ""
+	for _, ex := range exits {
+		if ex.ErrNil != 0 && !bool(ex.St.(ansState)) {
+			good = false
+			why = "Clone can return a tree at " + c.P.Pos(ex.Ret.Pos()) + " without calling mast's Clone: the copy shares the in-memory root node with the original; on a table that has never held a version the first transaction's rows survive ROLLBACK inside that node and the next write publishes them"
+		}
+	}
+	c.R.Cond(good, rule, name+": every successful return follows mast.Clone", c.P.Pos(fn.Pos()), "no shortcut copies the tree handle", why)
+}
